@@ -90,7 +90,7 @@ theorem C11_exact (cfg : Cfg) (w : World) (t : Nat) (obs : Nat → List Nat × L
         (pull cfg w t false obs fuel).1.log = w.log ++ executed w.hit pre ∧
         (∀ x ∈ pre, Reach w.deps t x) ∧
         ((pull cfg w t false obs fuel).2 = .ok → pre = (obs t).2) := by
-  obtain ⟨hns, pre, hp, hlog, hok, hmem⟩ := pull_log cfg w t false obs fuel hwf.gwf hwf.noSelfParent
+  obtain ⟨hns, pre, hp, hlog, hok, hmem, _⟩ := pull_log cfg w t false obs fuel hwf.gwf hwf.noSelfParent
     (by intro a ha; simp [pullLevels] at ha; subst ha; exact hyp)
     (by intro a ha; simp [pullLevels] at ha; subst ha; exact hfuel)
   have hl : levelsLog obs (pullLevels w t false) = (obs t).2.dropLast := by simp [levelsLog, pullLevels]
@@ -275,6 +275,49 @@ theorem C11_order_witness :
     have := congrFun (h exOrder 1 false exIfObs 10 exOrder_wf) (ch 0 2)
     revert this; decide
 
+/-! ## the temporary wiring leaves no trigger state behind -/
+
+/-- The linear chain only ever calls plain `run` inputs, so whatever the outcome of the pull — also
+when a node upstream raises half-way — no all-of trigger (`accumulate_and_run`) has collected
+anything: `received_signals` of every channel is what it was. Holds under the level hypothesis
+(trivially true with the repairs), for leaf and macro targets, with and without parent scopes. -/
+theorem C11_no_trigger_state (cfg : Cfg) (w : World) (t : Nat) (parents : Bool)
+    (obs : Nat → List Nat × List Nat) (fuel : Nat) (hwf : WF w)
+    (hyp : ∀ a ∈ pullLevels w t parents, LevelHyp cfg w a)
+    (hfuel : ∀ a ∈ pullLevels w t parents, (obs a).2.length + 1 ≤ fuel) :
+    (pull cfg w t parents obs fuel).1.recv = w.recv := by
+  obtain ⟨_, _, _, _, _, _, h⟩ := pull_log cfg w t parents obs fuel hwf.gwf hwf.noSelfParent hyp hfuel
+  exact h
+
+theorem C11_no_trigger_state_repaired (w : World) (t : Nat) (parents : Bool)
+    (obs : Nat → List Nat × List Nat) (fuel : Nat) (hwf : WF w)
+    (hfuel : ∀ a ∈ pullLevels w t parents, (obs a).2.length + 1 ≤ fuel) :
+    (pull Cfg.repaired w t parents obs fuel).1.recv = w.recv :=
+  C11_no_trigger_state _ w t parents obs fuel hwf (fun _ _ => ⟨Or.inl rfl, Or.inl rfl⟩) hfuel
+
+/-- the diamond `0 → {1, 2} → 3` wired the way a workflow wires its children (every node waits on
+its all-of trigger for the `ran` of the nodes it takes data from) instead of the linear chain -/
+def exAllOf : Env :=
+  { g := mkG [(ch 1 1, ch 0 2), (ch 2 1, ch 0 2), (ch 3 1, ch 1 2), (ch 3 1, ch 2 2)],
+    label := fun i => { base := i, tag := none }, fails := fun i => i = 1, truth := fun _ => none,
+    running := fun _ => false, hit := fun _ => false }
+
+/-- With all-of wiring the same aborted run leaves trigger state behind: node `1` raises, the join
+`3` has by then collected the signal of node `2` and keeps it — parentless nodes are never reset —
+so in a later run it fires as soon as `1` alone has emitted (with `2` moved downstream of `1`: before
+its data source). This is what a pull wired by `set_run_connections_according_to_dag` would do. -/
+theorem C11_allof_stale_witness :
+    let x0 : X := { log := [], recv := fun _ => [], failed := fun _ => false, stack := [], errs := 0,
+                    raised := false }
+    let x := runFuel exAllOf .dfs 20 (startNode exAllOf .dfs x0 0)
+    x.raised = true ∧ x.log = [0, 2, 1] ∧ x.recv (ch 3 1) = [(({ base := 2, tag := none } : Label), 2)] ∧
+      -- the failing branch is repaired (`fails` nowhere, flag cleared); the next run reaches the join
+      -- through node `1` alone and the join runs although node `2` has not
+      (let e' : Env := { exAllOf with fails := fun _ => false }
+       let y := runFuel e' .dfs 20
+         (startNode e' .dfs { x with failed := fun _ => false, raised := false, log := [] } 1)
+       y.log = [1, 3]) := by decide
+
 /-! ## stale or foreign `running` flags, cache hits -/
 
 /-- a target that is itself `running` is refused (after its upstream has been run: the readiness
@@ -349,7 +392,7 @@ theorem C11_parents (cfg : Cfg) (w : World) (t : Nat) (obs : Nat → List Nat ×
         (∀ x ∈ pre, x = t ∨ ∃ a ∈ pullLevels w t true, Reach w.deps a x) ∧
         ((pull cfg w t true obs fuel).2 = .ok →
           pre = (pullLevels w t true).flatMap (fun a => (obs a).2.dropLast) ++ [t]) := by
-  obtain ⟨h1, pre, h2, h3, h4, h5⟩ := pull_log cfg w t true obs fuel hwf.gwf hwf.noSelfParent hyp hfuel
+  obtain ⟨h1, pre, h2, h3, h4, h5, _⟩ := pull_log cfg w t true obs fuel hwf.gwf hwf.noSelfParent hyp hfuel
   exact ⟨h1, pre, h2, h3, h5, h4⟩
 
 /-- with the repairs no hypothesis on the wiring is needed -/
@@ -397,6 +440,9 @@ end PwVerif.C11
 #print axioms PwVerif.C11.C11_restored_ordered
 #print axioms PwVerif.C11.C11_restored_ordered_repaired
 #print axioms PwVerif.C11.C11_order_witness
+#print axioms PwVerif.C11.C11_no_trigger_state
+#print axioms PwVerif.C11.C11_no_trigger_state_repaired
+#print axioms PwVerif.C11.C11_allof_stale_witness
 #print axioms PwVerif.C11.C11_running_target_refused
 #print axioms PwVerif.C11.C11_refused_unchanged
 #print axioms PwVerif.C11.C11_automate_restored
